@@ -110,6 +110,28 @@ pub fn gen_plan(rng: &mut Rng, u: &Universe, nlayers: usize, ovl_node: usize, pr
             }
         }
     }
+    // now and then: a lower layer holds a FILE where the serving (earlier) layer holds a directory. The union is
+    // still well defined (the first layer that has the path decides, directories merge the children of the layers
+    // in which the path is a directory), so the model is unchanged; the inverse conflict (file above directory)
+    // would make the union ill-formed and is never generated.
+    if nlayers >= 2 && rng.chance(1, 3) {
+        let dirs: Vec<String> = master.iter().filter(|(_, n)| matches!(n, Node::Dir)).map(|(p, _)| p.clone()).collect();
+        if !dirs.is_empty() {
+            let d = rng.pick(&dirs).clone();
+            if let Some(first) = layers.iter().position(|l| l.contains_key(&d)) {
+                let cands: Vec<usize> = (first + 1..nlayers)
+                    .filter(|j| {
+                        let par = crate::model::parent_of(&d);
+                        !layers[*j].contains_key(&d) && (par.is_empty() || matches!(layers[*j].get(&par), Some(Node::Dir)))
+                    })
+                    .collect();
+                if !cands.is_empty() {
+                    let j = *rng.pick(&cands);
+                    layers[j].insert(d, Node::File(b"shadowed lower file".to_vec()));
+                }
+            }
+        }
+    }
     let mut union = Model::new();
     let mut lower_paths = BTreeSet::new();
     for (li, layer) in layers.iter().enumerate() {
